@@ -385,6 +385,16 @@ def check_C12(ctx, w):
     tests = mc_tests(ctx, w, "mc", slots=2, kvals=2, avals=2, maxbatch=2, maxops=ctx.q(3, 4), bfilter="PairBatch", get=True, limit=ctx.q(1200, 20000), cfgs="SyncCfgs")
     tests += rnd_tests(ctx, ctx.q(100, 1500), nops=ctx.q(25, 40), p_query=0.12)
     tests += gen_tests(ctx, 6, gen.args_test, "arg")
+    # settings switches (cache / async on and off) that only the "switchy" variant executes: going through other settings
+    # and back changes nothing that a call returns
+    sw = rnd_tests(ctx, ctx.q(60, 900), label="swy", nops=ctx.q(25, 40), p_query=0.05)
+    for t in sw:
+        ops = []
+        for o in t["ops"]:
+            ops.append(o)
+            if ctx.rng.random() < 0.12:
+                ops.append({"op": "switch", "cfg": {"cache": ctx.rng.random() < 0.5, "async": ctx.rng.random() < 0.5, "thr": 100000, "tmo_ms": 3600000}, "variant_only": True})
+        t["ops"] = ops
     basecfg = dict(cache=False, thr=100000, tmo_ms=3600000, gz=False, lc=False, ext=".json", plain=False)
     basecfg["async"] = False
     for t in tests:
@@ -404,6 +414,12 @@ def check_C12(ctx, w):
     if not ctx.quick:
         variants += [V(plain=True, cache=True, gz=True), V(plain=True, lc=True, **{"async": True}), V(gz=True, ext=".x"), V(lc=True, cache=True), V(asyncoff=True, cache=True, gz=True)]
     pair_pipeline(ctx, w, tests, variants)
+    for t in sw:
+        t["cfg"] = dict(basecfg)
+        for o in t["ops"]:
+            if o["op"] == "reopen":
+                o["close"] = True
+    pair_pipeline(ctx, w, sw, [V(switchy=True), V(switchy=True, cache=True)], label="swy")
 
 
 def check_C05(ctx, w):
@@ -535,7 +551,7 @@ def check_C11(ctx, w):
     uni = gen.universe(binp)
     tests = gen.damage_tests(uni, ctx.rng, limit=None, nslots=ctx.q(3, 5))
     ctx.exhaustive = True
-    seq_pipeline(ctx, w, tests, ["Conf_C11", "Conf_C01"])
+    seq_pipeline(ctx, w, tests, ["Conf_C11", "Conf_C01", "Conf_X"])
     # design level (spec/SodRepair.tla): every damage sequence on every consistent database of the bounded model
     rcfg = ("SPECIFICATION Spec\nCONSTANTS\n  Slots = {%s}\n  Vals = {0, 1}\n  MaxDamage = %d\nINVARIANTS ControlIff RepairConverges NoFalsePositive\n"
             "PROPERTY RepairKeepsFiles\nCHECK_DEADLOCK FALSE\n") % (", ".join(str(i) for i in range(1, ctx.q(3, 4) + 1)), ctx.q(3, 4))
@@ -903,6 +919,15 @@ def check_C10(ctx, w):
     # Create again on the same handle with other settings (asynchronous before and after): the flusher of the new settings takes over
     tests += mc_tests(ctx, w, "sw_", slots=2, kvals=2, avals=1, maxbatch=1, maxops=ctx.q(4, 5), bfilter="NoBatch", get=False, flusher=True, switch=True, thr=2, tmo=2,
                       cfgs="AsyncCfgs", limit=ctx.q(1500, 15000), convert_kw=dict(thr=2, tmo_ms=200, vclock=True))
+    # Drop + Create on the live handle, then the flusher of the re-created collection must work (threshold / timeout reached at a tick)
+    tests += mc_tests(ctx, w, "drf_", slots=2, kvals=2, avals=1, maxbatch=1, maxops=ctx.q(4, 5), bfilter="NoBatch", get=False, flusher=True, drop=True, thr=1, tmo=2,
+                      cfgs="AsyncCfgs", limit=ctx.q(1500, 15000), convert_kw=dict(thr=1, tmo_ms=200, vclock=True))
+    # (deviation-guided: in the intended design the state after Drop + Create IS the initial state, so no history continues
+    # after a Drop; exploring with the deviation DropKeepsMemory keeps them apart and yields the continuations)
+    tests += mc_tests(ctx, w, "drg_", slots=2, kvals=2, avals=1, maxbatch=1, maxops=ctx.q(4, 5), bfilter="NoBatch", get=False, flusher=True, drop=True, thr=1, tmo=2,
+                      cfgs="AsyncCfgs", limit=ctx.q(2000, 20000), convert_kw=dict(thr=1, tmo_ms=200, vclock=True), dev=("DropKeepsMemory",), check=False)
+    # two collections created from one Schema value, a flusher each, under the virtual clock
+    tests += gen_tests(ctx, ctx.q(100, 1500), gen.aux_async_test, "xas", nops=ctx.q(14, 24))
     # "Close (for every collection)": a second collection with pending writes of its own; FlushAll* of one collection, Close of both
     tests += aux_tests(ctx, ctx.q(150, 2000), nops=ctx.q(20, 35), cfgs=[(False, True), (True, True)], p_reopen=0.15, p_del=0.25)
     seq_pipeline(ctx, w, tests, ["Conf_C10", "Conf_X", "Conf_Drop"])
